@@ -588,7 +588,22 @@ func (r *Renderer) quote(s string) string {
 				sb.WriteRune(c)
 			}
 		default:
-			if !r.NoLayout && r.Ch.Intn(6) == 5 {
+			k := 0
+			if !r.NoLayout {
+				k = r.Ch.Intn(6)
+			}
+			if k == 4 {
+				// the bytes of the UTF-8 encoding, one escape each (what %q of a []byte, or an escaped log line, gives)
+				oct := r.pick(2) == 1
+				for _, b := range []byte(string(c)) {
+					if oct {
+						fmt.Fprintf(&sb, `\%03o`, b)
+					} else {
+						fmt.Fprintf(&sb, `\x%02x`, b)
+					}
+				}
+				escaped = true
+			} else if k == 5 {
 				if c > 0xffff {
 					fmt.Fprintf(&sb, `\U%08x`, c)
 				} else {
